@@ -523,7 +523,7 @@ class Weight(AbstractDimension):
         elif units == Weight.Kilogram:
             result = value * 15432.3584
         elif units == Weight.Newton:
-            result = value * 151339.73750336
+            result = value * 1573.6626017
         elif units == Weight.Pound:
             result = value / 0.000142857143
         elif units == Weight.Ounce:
@@ -540,7 +540,7 @@ class Weight(AbstractDimension):
         elif units == Weight.Kilogram:
             result = value / 15432.3584
         elif units == Weight.Newton:
-            result = value / 151339.73750336
+            result = value / 1573.6626017
         elif units == Weight.Pound:
             result = value * 0.000142857143
         elif units == Weight.Ounce:
